@@ -62,6 +62,7 @@ pub fn dec_call(
     let res = catch_unwind(AssertUnwindSafe(|| decompress_with_limit(r, input, out, out_pos, out_max, flags)));
     let (st, used, w) = match res {
         Err(_) => {
+            tr.suspect = true;
             tr.ev(json!({"ev": "panic", "where": "decompress", "obj": obj, "in_len": input.len(),
                          "out_len": out.len(), "out_pos": out_pos, "flags": flags}));
             return None;
@@ -75,6 +76,9 @@ pub fn dec_call(
     let lo = out_pos.min(out.len());
     let hi = (out_pos.saturating_add(space)).min(out.len());
     let outside_ok = out[..lo] == before[..lo] && out[hi..] == before[hi..];
+    if !outside_ok || w > space || used > input.len() {
+        tr.suspect = true;
+    }
     let data: Vec<u8> = if out_pos <= out.len() && w <= out.len() - out_pos {
         out[out_pos..out_pos + w].to_vec()
     } else {
@@ -334,6 +338,7 @@ pub fn inf_call(
     let res = catch_unwind(AssertUnwindSafe(|| inflate(st, input, &mut buf, flush)));
     match res {
         Err(_) => {
+            tr.suspect = true;
             tr.ev(json!({"ev": "panic", "where": "inflate", "obj": obj}));
             None
         }
@@ -344,6 +349,9 @@ pub fn inf_call(
                 "flush": crate::comp::mzflush_name(flush), "status": crate::comp::mz_result(&r.status),
                 "consumed": r.bytes_consumed, "written": r.bytes_written, "data": bytes(&buf[..w]),
                 "tail_untouched": tail_ok, "all_input": all_input}));
+            if r.bytes_consumed > input.len() || r.bytes_written > out_len || !tail_ok {
+                tr.suspect = true;
+            }
             if r.bytes_consumed > input.len() || r.bytes_written > out_len {
                 return None;
             }
